@@ -85,11 +85,11 @@ def main():
     # ---- MC
     if quick:
         chk.mc('Runtime', 'MC_Runtime_code2', workers=16, heap='8g', label='code model, 2 threads x 2 calls, faults',
-               must_cover=['GEnter', 'GCheck', 'GParse', 'GFail', 'GStore', 'GUse', 'VEnter', 'VMember', 'VCache', 'VImport', 'Return'])
+               must_cover=['GEnter', 'GCheck', 'GParse', 'GFail', 'GStore', 'GUse', 'VEnter', 'VMember', 'VCache', 'VImport', 'VAttach', 'VGetattr', 'Return'])
     else:
         chk.mc('Runtime', 'MC_Runtime_code', workers=16, heap='12g', label='code model, 3 threads x 2 calls, faults', timeout=3000)
     for v, inv in (('StoreFirst', 'PureResults'), ('BaseKey', 'KeyInjective'), ('AliasProps', 'PureResults'),
-                   ('CacheBeforeMember', 'PureResults'), ('StoreFirstFault', 'PureResults')):
+                   ('CacheBeforeMember', 'PureResults'), ('StoreFirstFault', 'PureResults'), ('ImportWindow', 'PureResults')):
         chk.mc('Runtime', 'MC_Runtime_' + v, workers=8, expect_violation=inv, label='hazard variant ' + v)
     # ---- GEN histories
     nh = 120 if quick else 2500
